@@ -105,6 +105,18 @@ def s_import_diff(d):
     return t, (lambda c: c.import_objects(ks, s, compress=True, target_memory_bytes=150)), set()
 
 
+def s_import_same_stream(d):
+    t = base(d, target=150)
+    s, ks = _src()
+    return t, (lambda c: c.import_objects(ks, s, target_memory_bytes=1)), set()
+
+
+def s_import_diff_stream(d):
+    t = base(d, target=10 ** 9)
+    s, ks = _src('sha1')
+    return t, (lambda c: c.import_objects((k for k in ks), s, target_memory_bytes=1, callback=lambda action, value: None)), set()
+
+
 def s_clean_dups(d):
     t = base(d)
     k = H(A[2])
@@ -128,7 +140,7 @@ def s_add_damaged(d):
 
 
 SCEN = {k[2:]: v for k, v in list(globals().items()) if k.startswith('s_')}
-QUICK = ['add', 'add_dup', 'pack', 'pack_small', 'pack_nofsync_clean', 'pack_then_clean', 'topack_nh_rt0', 'topack_nofsync', 'delete', 'repack', 'import_diff', 'clean']
+QUICK = ['add', 'add_dup', 'pack', 'pack_small', 'pack_nofsync_clean', 'pack_then_clean', 'topack_nh_rt0', 'topack_nofsync', 'delete', 'repack', 'import_diff', 'import_same_stream', 'clean']
 # scenarios that switch the fsync defaults off are outside C06 ("with the default fsync settings")
 NON_DEFAULT_FSYNC = {'pack_nofsync', 'pack_nofsync_clean', 'topack_nofsync'}
 # scenarios that keep the default fsync settings and start from an undamaged state (C06)
